@@ -1,1 +1,330 @@
-//! harness bodies: sync
+//! harness bodies: sync.rs (child module of `sync`)
+use std::cmp::Ordering;
+
+use bytes::Bytes;
+use iroh_blobs::Hash;
+
+use super::*;
+use crate::verif_incrate::{
+    crypto,
+    src::{ck, cv, Src},
+};
+
+/// A store for `validate_entry`'s type parameter: no entries, keys parsed by (stubbed) iroh.
+pub struct NoStore;
+impl crate::store::PublicKeyStore for NoStore {
+    fn public_key(&self, id: &[u8; 32]) -> Result<iroh::PublicKey, iroh::KeyParsingError> {
+        iroh::PublicKey::from_bytes(id)
+    }
+}
+impl ranger::Store<SignedEntry> for NoStore {
+    type Error = anyhow::Error;
+    type RangeIterator<'a> = std::vec::IntoIter<anyhow::Result<SignedEntry>>;
+    type ParentIterator<'a> = std::vec::IntoIter<anyhow::Result<SignedEntry>>;
+    fn get_first(&mut self) -> anyhow::Result<RecordIdentifier> {
+        unreachable!()
+    }
+    #[cfg(test)]
+    fn get(&mut self, _key: &RecordIdentifier) -> anyhow::Result<Option<SignedEntry>> {
+        unreachable!()
+    }
+    #[cfg(test)]
+    fn len(&mut self) -> anyhow::Result<usize> {
+        unreachable!()
+    }
+    #[cfg(test)]
+    fn is_empty(&mut self) -> anyhow::Result<bool> {
+        unreachable!()
+    }
+    fn get_fingerprint(&mut self, _range: &ranger::Range<RecordIdentifier>) -> anyhow::Result<Fingerprint> {
+        unreachable!()
+    }
+    fn entry_put(&mut self, _entry: SignedEntry) -> anyhow::Result<()> {
+        unreachable!()
+    }
+    fn get_range(&mut self, _range: ranger::Range<RecordIdentifier>) -> anyhow::Result<Self::RangeIterator<'_>> {
+        unreachable!()
+    }
+    #[cfg(test)]
+    fn prefixed_by(&mut self, _prefix: &RecordIdentifier) -> anyhow::Result<Self::RangeIterator<'_>> {
+        unreachable!()
+    }
+    fn prefixes_of(&mut self, _key: &RecordIdentifier) -> anyhow::Result<Self::ParentIterator<'_>> {
+        unreachable!()
+    }
+    #[cfg(test)]
+    fn all(&mut self) -> anyhow::Result<Self::RangeIterator<'_>> {
+        unreachable!()
+    }
+    #[cfg(test)]
+    fn entry_remove(&mut self, _key: &RecordIdentifier) -> anyhow::Result<Option<SignedEntry>> {
+        unreachable!()
+    }
+    fn remove_prefix_filtered(&mut self, _prefix: &RecordIdentifier, _predicate: impl Fn(&Record) -> bool) -> anyhow::Result<usize> {
+        unreachable!()
+    }
+}
+
+/// Raw, possibly malformed entry fields (what a peer can put on the wire).
+#[derive(Clone, Copy)]
+pub struct RawEntry<const K: usize> {
+    pub ns: [u8; 32],
+    pub author: [u8; 32],
+    pub key: [u8; K],
+    pub len: u64,
+    pub hash: [u8; 32],
+    pub ts: u64,
+}
+
+impl<const K: usize> RawEntry<K> {
+    pub fn any<S: Src>(s: &mut S) -> Self {
+        RawEntry { ns: s.arr(), author: s.arr(), key: s.arr(), len: s.u64(), hash: s.arr(), ts: s.u64() }
+    }
+    /// build the real `Entry` (private fields: bypasses `Record::new`'s debug assertion, as serde does)
+    pub fn entry(&self) -> Entry {
+        Entry {
+            id: RecordIdentifier::new(NamespaceId::from(&self.ns), AuthorId::from(&self.author), self.key),
+            record: Record { len: self.len, hash: Hash::from_bytes(self.hash), timestamp: self.ts },
+        }
+    }
+    /// the canonical signing bytes, written independently of `Entry::encode`
+    pub fn spec_bytes(&self) -> Vec<u8> {
+        let mut v = Vec::with_capacity(64 + K + 48);
+        v.extend_from_slice(&self.ns);
+        v.extend_from_slice(&self.author);
+        v.extend_from_slice(&self.key);
+        v.extend_from_slice(&self.len.to_be_bytes());
+        v.extend_from_slice(&self.hash);
+        v.extend_from_slice(&self.ts.to_be_bytes());
+        v
+    }
+}
+
+/// C03/C09: `Entry::encode` = ns ‖ author ‖ key ‖ len_be ‖ hash ‖ timestamp_be, and the accessors
+/// slice the identifier at 32/64.
+pub fn entry_encode_layout<S: Src, const K: usize>(s: &mut S) {
+    let raw = RawEntry::<K>::any(s);
+    let e = raw.entry();
+    let got = e.to_vec();
+    let want = raw.spec_bytes();
+    ck!(s, got == want, "Entry::encode is namespace|author|key|len_be|hash|timestamp_be");
+    ck!(s, e.namespace().to_bytes() == raw.ns && e.author().to_bytes() == raw.author && e.key() == &raw.key[..],
+        "RecordIdentifier accessors slice namespace/author/key at 32/64");
+    ck!(s, e.content_len() == raw.len && *e.content_hash().as_bytes() == raw.hash && e.timestamp() == raw.ts,
+        "Entry accessors return the record fields");
+    let (a, b, c) = e.id().as_byte_tuple();
+    ck!(s, *a == raw.ns && *b == raw.author && c == &raw.key[..], "as_byte_tuple slices at 32/64");
+}
+
+/// C03: `validate_empty` truth table.
+pub fn validate_empty_table<S: Src>(s: &mut S) {
+    let raw = RawEntry::<1>::any(s);
+    let e = raw.entry();
+    let hash_empty = raw.hash == *Hash::EMPTY.as_bytes();
+    let len_zero = raw.len == 0;
+    let ok = e.validate_empty().is_ok();
+    cv!(s, hash_empty && !len_zero, "validate_empty: empty hash with non-zero length");
+    cv!(s, !hash_empty && len_zero, "validate_empty: zero length with non-empty hash");
+    cv!(s, hash_empty && len_zero, "validate_empty: proper deletion marker");
+    ck!(s, ok == (hash_empty == len_zero), "validate_empty accepts exactly proper deletion markers and proper non-empty records");
+}
+
+/// C03: `validate_entry` accepts exactly the entries that are in-namespace, not too far in the
+/// future and (if remote) carry both honest signatures over exactly their content.
+///
+/// KH/KE: key lengths of the honestly signed entry H and of the received entry E.  E is arbitrary
+/// (every field and both signatures independent of H): all byte-level tamperings, swapped
+/// signatures, foreign keys.
+pub fn validate_entry_accepts<S: Src, const KH: usize, const KE: usize>(s: &mut S) {
+    crypto::reset();
+    // the honest entry and its two honest signatures
+    let h = RawEntry::<KH>::any(s);
+    let sig_n: [u8; 64] = s.arr();
+    let sig_a: [u8; 64] = s.arr();
+    let hmsg = h.spec_bytes();
+    crypto::set_row(0, h.ns, &hmsg, sig_n);
+    crypto::set_row(1, h.author, &hmsg, sig_a);
+    // optionally: an id that is not a curve point
+    let bad_id: [u8; 32] = s.arr();
+    if s.bool() {
+        crypto::cm().noncurve[0] = Some(bad_id);
+    }
+    // what arrives
+    let e = RawEntry::<KE>::any(s);
+    let e_sig_n: [u8; 64] = s.arr();
+    let e_sig_a: [u8; 64] = s.arr();
+    let signed = SignedEntry::new(EntrySignature::from_parts(&e_sig_n, &e_sig_a), e.entry());
+    let expected_ns: [u8; 32] = s.arr();
+    let now = s.u64();
+    s.assume(now < (1u64 << 62)); // so that now + MAX_TIMESTAMP_FUTURE_SHIFT cannot wrap (stated bound)
+    let remote = s.bool();
+    let origin = if remote {
+        InsertOrigin::Sync { from: [7u8; 32], remote_content_status: ContentStatus::Missing }
+    } else {
+        InsertOrigin::Local
+    };
+
+    let res = validate_entry(now, &NoStore, NamespaceId::from(&expected_ns), &signed, &origin);
+
+    let ns_ok = e.ns == expected_ns;
+    let ts_ok = e.ts <= now + 600_000_000;
+    let noncurve = crypto::cm().noncurve[0];
+    let keys_ok = noncurve != Some(e.ns) && noncurve != Some(e.author);
+    let emsg = e.spec_bytes();
+    let same_content = KH == KE && emsg == hmsg;
+    let sigs_ok = same_content && e.ns == h.ns && e.author == h.author && e_sig_n == sig_n && e_sig_a == sig_a;
+    // a signature pair can also be "honest" if the peer presents H's signatures swapped onto matching keys
+    // (ns == author, both rows identical message): covered by the table semantics below.
+    let tbl = crypto::cm().table;
+    let row_ok = |pk: &[u8; 32], sig: &[u8; 64]| {
+        let mut ok = false;
+        let mut i = 0;
+        while i < 2 {
+            let r = &tbl[i];
+            if r.on && r.pk == *pk && r.sig == *sig && r.msg_len == emsg.len() && r.msg[..r.msg_len] == emsg[..] {
+                ok = true;
+            }
+            i += 1;
+        }
+        ok
+    };
+    let sig_spec = row_ok(&e.ns, &e_sig_n) && row_ok(&e.author, &e_sig_a);
+    let want_ok = ns_ok && ts_ok && (!remote || (keys_ok && sig_spec));
+
+    cv!(s, KH != KE || (res.is_ok() && remote), "validate_entry: a remote entry is accepted");
+    cv!(s, res.is_err() && remote && ns_ok && ts_ok && keys_ok, "validate_entry: rejected only because of signatures");
+    cv!(s, remote && ns_ok && !ts_ok, "validate_entry: too far in the future");
+    cv!(s, KH != KE || (sigs_ok && remote), "validate_entry: the honest entry itself arrives");
+    ck!(s, res.is_ok() == want_ok,
+        "validate_entry accepts exactly in-namespace, not-too-future entries whose namespace and author signatures verify over exactly their content");
+    if let Err(err) = &res {
+        let kind_ok = match err {
+            ValidationFailure::InvalidNamespace => !ns_ok,
+            ValidationFailure::BadSignature => ns_ok && remote && !(keys_ok && sig_spec),
+            ValidationFailure::TooFarInTheFuture => ns_ok && !ts_ok,
+            ValidationFailure::InvalidEmptyEntry => false,
+        };
+        ck!(s, kind_ok, "validate_entry reports the documented failure reason");
+    }
+    if res.is_ok() && remote {
+        // glue: both ids were parsed as keys and both signatures were checked against the right key,
+        // the entry's own canonical bytes and the right signature
+        let m = crypto::cm();
+        let mut parsed_ns = false;
+        let mut parsed_author = false;
+        let mut i = 0;
+        while i < 4 {
+            if let Some((b, ok)) = m.parsed[i] {
+                parsed_ns |= b == e.ns && ok;
+                parsed_author |= b == e.author && ok;
+            }
+            i += 1;
+        }
+        ck!(s, parsed_ns && parsed_author, "acceptance implies both ids were parsed as public keys");
+        ck!(s, m.n_verified == 2 && matches!(m.verified[0], Some((_, true))) && matches!(m.verified[1], Some((_, true))),
+            "acceptance implies exactly two signature verifications, both successful");
+    }
+    std::mem::forget(res);
+    std::mem::forget(signed);
+}
+
+/// C01-S1: `Ord for Record` is the lexicographic order on (timestamp, hash) and total.
+pub fn record_order<S: Src>(s: &mut S) {
+    let (t1, t2, t3) = (s.u64(), s.u64(), s.u64());
+    let (h1, h2, h3): ([u8; 32], [u8; 32], [u8; 32]) = (s.arr(), s.arr(), s.arr());
+    let (l1, l2) = (s.u64(), s.u64());
+    let r1 = Record { len: l1, hash: Hash::from_bytes(h1), timestamp: t1 };
+    let r2 = Record { len: l2, hash: Hash::from_bytes(h2), timestamp: t2 };
+    let r3 = Record { len: l1, hash: Hash::from_bytes(h3), timestamp: t3 };
+    let spec = t1.cmp(&t2).then_with(|| h1.cmp(&h2));
+    cv!(s, t1 == t2 && h1 != h2, "record_order: equal timestamps, different hashes");
+    ck!(s, r1.cmp(&r2) == spec, "Record order is (timestamp, hash) lexicographic, independent of len");
+    ck!(s, r2.cmp(&r1) == spec.reverse(), "Record order is antisymmetric");
+    if r1 <= r2 && r2 <= r3 {
+        ck!(s, r1 <= r3, "Record order is transitive");
+    }
+}
+
+/// C01-S2/C08: `RecordIdentifier` order = byte order of ns ‖ author ‖ key.
+pub fn record_id_order<S: Src, const K1: usize, const K2: usize>(s: &mut S) {
+    let (n1, a1): ([u8; 32], [u8; 32]) = (s.arr(), s.arr());
+    let (n2, a2): ([u8; 32], [u8; 32]) = (s.arr(), s.arr());
+    let k1: [u8; K1] = s.arr();
+    let k2: [u8; K2] = s.arr();
+    let i1 = RecordIdentifier::new(NamespaceId::from(&n1), AuthorId::from(&a1), k1);
+    let i2 = RecordIdentifier::new(NamespaceId::from(&n2), AuthorId::from(&a2), k2);
+    let spec = n1.cmp(&n2).then_with(|| a1.cmp(&a2)).then_with(|| k1[..].cmp(&k2[..]));
+    cv!(s, n1 == n2 && a1 == a2, "record_id_order: same namespace and author");
+    ck!(s, i1.cmp(&i2) == spec, "RecordIdentifier order is (namespace, author, key) lexicographic = the records-table tuple order");
+}
+
+// ---------------------------------------------------------------------------------------------
+// C07 capabilities
+// ---------------------------------------------------------------------------------------------
+
+/// The (stubbed) public key of a secret: an injective map on the harness domain, see
+/// `env::secret_public`.  Capability ids are derived through the real `NamespaceSecret::id`.
+pub fn capability_merge<S: Src>(s: &mut S) {
+    let mk = |s: &mut S| -> Capability {
+        let b: [u8; 32] = s.arr();
+        if s.bool() {
+            Capability::Write(NamespaceSecret::from_bytes(&b))
+        } else {
+            Capability::Read(NamespaceId::from(&b))
+        }
+    };
+    let mut a = mk(s);
+    let b = mk(s);
+    let a0_id = a.id();
+    let a0_write = matches!(a, Capability::Write(_));
+    let a0_raw = a.raw();
+    let b_id = b.id();
+    let b_write = matches!(b, Capability::Write(_));
+    let b_raw = b.raw();
+    let res = a.merge(b);
+    cv!(s, a0_id == b_id && !a0_write && b_write, "capability_merge: upgrade case");
+    cv!(s, a0_id == b_id && a0_write && !b_write, "capability_merge: read import onto write");
+    cv!(s, a0_id != b_id, "capability_merge: mismatch case");
+    match res {
+        Err(_) => {
+            ck!(s, a0_id != b_id, "merge fails only for a different document");
+            ck!(s, a.raw() == a0_raw, "a failed merge changes nothing");
+        }
+        Ok(changed) => {
+            ck!(s, a0_id == b_id, "merge succeeds only for the same document");
+            ck!(s, changed == (!a0_write && b_write), "merge reports a change exactly for the read->write upgrade");
+            ck!(s, a.id() == a0_id, "merge never changes the document id");
+            let now_write = matches!(a, Capability::Write(_));
+            ck!(s, now_write == (a0_write || b_write), "write capability is gained by importing the secret and never lost");
+            if changed {
+                ck!(s, a.raw() == b_raw, "an upgrade stores the imported secret");
+            } else {
+                ck!(s, a.raw() == a0_raw, "no upgrade leaves the capability bit-identical");
+            }
+        }
+    }
+}
+
+/// C07/C09: `Capability::from_raw(raw(c)) == c`; unknown kinds are errors, never panics.
+pub fn capability_raw_roundtrip<S: Src>(s: &mut S) {
+    let kind = s.u8();
+    let bytes: [u8; 32] = s.arr();
+    let res = Capability::from_raw(kind, &bytes);
+    cv!(s, kind == 1, "capability_raw: write kind");
+    cv!(s, kind == 2, "capability_raw: read kind");
+    cv!(s, kind > 2, "capability_raw: unknown kind");
+    match &res {
+        Ok(c) => {
+            ck!(s, kind == 1 || kind == 2, "only kinds 1 (write) and 2 (read) decode");
+            ck!(s, (kind == 1) == matches!(c, Capability::Write(_)), "kind 1 is write, kind 2 is read");
+            let (k2, b2) = c.raw();
+            ck!(s, k2 == kind && b2 == bytes, "raw(from_raw(kind, bytes)) == (kind, bytes)");
+            ck!(s, c.secret_key().is_ok() == (kind == 1), "secret key is available exactly for write capabilities");
+        }
+        Err(_) => {
+            ck!(s, kind != 1 && kind != 2, "kinds 1 and 2 always decode");
+        }
+    }
+    // the anyhow error's drop glue (Backtrace frames) is not the subject; skip it
+    std::mem::forget(res);
+}
